@@ -5,7 +5,7 @@ PROP = 'C06'
 
 
 def run(chk):
-    n = 640 if chk.tier == 'quick' else 6000
+    n = 640 if chk.size_tier == 'quick' else 6000
     chk.rule = ('scenes from families synth / exact / degenerate / multi / chain (repeated merges, exact min-sep ties) / '
                 'split (mixture engaged, 2-3 modes, any row order, look-back) / crop (hits at and around MSA+buffer) / bundle '
                 '(time axis matters) / manyslices (>100 slices); the real cascade is run under recording and re-run by the '
